@@ -37,6 +37,9 @@
 //	   server tables, end-to-end echo), the final ledger must show exactly one session owning exactly the
 //	   configured proxies.
 //
+// In half of the B / C / R / F cases the real frpc keeps loginFailExit at its default (true): the first login succeeds, so
+// the option must not matter afterwards; every recovery oracle also requires that the frpc service is still running.
+//
 // Time discipline: lower bounds and attempt-rate bounds are verdicts; upper bounds are watchdogs with
 // 3x timer + 10 s (teardown) or 50 s (recovery: 20 s max back-off x 1.1 + 10 s dial + 15 s); "a live peer was
 // torn down" is only a verdict when the acknowledged ping times (A) or the scheduling-lag sentinel (B, C)
